@@ -790,6 +790,9 @@ func run(cfg *lib.Config, res *lib.Result) {
 		cf.Prelude = lat.Oracle(pats, strs)
 		res.CorrFiles = append(res.CorrFiles, cf.WriteTo(cfg.Out, "cases_generalize"))
 	}
+
+	// ---- D + M: histories of inference on values that share parts (hist.go)
+	runHistories(cfg, res, rng.Fork())
 }
 
 
@@ -1001,6 +1004,8 @@ func replay(cfg *lib.Config, res *lib.Result) {
 		remarshal(in, &x)
 		res.Evaluations++
 		switch x.Kind {
+		case "history":
+			replayHistory(in, res, cfg)
 		case "value":
 			v := x.V.Build()
 			pt, dt := v.PType(), px.DetailedValueType(v)
